@@ -12,6 +12,7 @@ use std::collections::BTreeMap;
 use std::collections::BTreeSet;
 
 pub mod pkggen;
+pub mod srcsum;
 pub mod sum;
 
 // ---------------------------------------------------------------- worlds
